@@ -114,29 +114,40 @@ def check_exception_table(ctx, rule="C03.X"):
         else:
             ctx.note(f"exception-table entry ({g}, {i}) has no instruction class in any flavour (informational)")
     ctx.anchor(rule, "operand positions compared with the exception table", n, 150)
-    # use site: (command.instruction, j) with j = enumerate index over command.operands
+    # use site, executed: for every entry of the table, a command of that instruction with a literal in EVERY operand position goes
+    # through _replace_constants; the literals at the instruction's exempt positions - and only those - are still literals afterwards
+    from .. import circuit as C
     m = repo.module(TEXT_MOD)
     fn = m.functions.get("_replace_constants")
     if fn is None:
         raise AnalysisError("_replace_constants not found")
     ctx.fn("text._replace_constants")
-    ok = False
-    detail = "no membership test against _REPLACE_CONSTANTS_EXCEPTION found"
-    for loop in [n_ for n_ in ast.walk(fn) if isinstance(n_, ast.For)]:
-        it = loop.iter
-        if isinstance(it, ast.Call) and dotted(it.func) == "enumerate" and isinstance(loop.target, ast.Tuple) and len(loop.target.elts) == 2:
-            jvar = loop.target.elts[0].id if isinstance(loop.target.elts[0], ast.Name) else None
-            seq = it.args[0] if it.args else None
-            if not (isinstance(seq, ast.Attribute) and seq.attr == "operands" and isinstance(seq.value, ast.Name)):
+    icmd = repo.get_class(IR_MOD, "ICmd")
+    by_instr = {}
+    for g, i in tab:
+        by_instr.setdefault(g, set()).add(i)
+    why = None
+    try:
+        for g, exempt in sorted(by_instr.items()):
+            width = max(exempt) + 2
+            ops = [900 + k for k in range(width)]
+            cmd = C.Obj(icmd, {"instruction": EnumMember(gi.qualname, g, members[g]), "args": [], "operands": list(ops), "lineno": None})
+            sc = C.Scenario()
+            sc.plain_registers = True
+            sc.globals = {"_REPLACE_CONSTANTS_EXCEPTION": [(EnumMember(gi.qualname, a_, members[a_]), b_) for a_, b_ in sorted(tab)]}
+            try:
+                C.Interp(repo, ev, sc, None).call_function(m, fn, [[cmd]], {})
+            except C.EvalRaise as ex_:
+                why = why or f"{g}: raises {ex_}"
                 continue
-            cmdvar = seq.value.id
-            for n_ in ast.walk(loop):
-                if isinstance(n_, ast.Compare) and len(n_.ops) == 1 and isinstance(n_.ops[0], (ast.In, ast.NotIn)) and A.norm(n_.comparators[0]) == "_REPLACE_CONSTANTS_EXCEPTION":
-                    key = n_.left
-                    ok = isinstance(key, ast.Tuple) and len(key.elts) == 2 and A.norm(key.elts[0]) == f"{cmdvar}.instruction" and A.norm(key.elts[1]) == jvar \
-                        and (len(it.args) == 1 and not it.keywords)
-                    detail = f"table is consulted with key {src(key)}; expected ({cmdvar}.instruction, <enumerate index over {cmdvar}.operands starting at 0>)"
-    ctx.check(rule, "_replace_constants:table-key", ok, detail, repo.loc(m, fn))
+            kept = {k for k, v in enumerate(cmd.fields["operands"]) if isinstance(v, int)}
+            if kept != exempt:
+                why = why or f"{g} with literals in positions 0..{width - 1}: positions {sorted(kept)} are still literals, the table exempts {sorted(exempt)}"
+    except AnalysisError as ex_:
+        ctx.error(rule, f"_replace_constants cannot be evaluated: {ex_}")
+        return
+    ctx.check(rule, "_replace_constants:table-key", why is None,
+              f"the table is not consulted with (the command's instruction, the operand's position): {why}", repo.loc(m, fn), sample={"instructions": len(by_instr)})
 
 
 def check_order(ctx):
@@ -458,28 +469,62 @@ def check_lookup(ctx):
     if fn is None:
         raise AnalysisError("_build_subroutine not found")
     ctx.fn("text._build_subroutine")
-    loops = [st for st in fn.body if isinstance(st, ast.For)]
-    ok_loop = False
-    lookup_ok = False
-    fromops_ok = False
-    if len(loops) == 1:
-        lp = loops[0]
-        cmdvar = lp.target.id if isinstance(lp.target, ast.Name) else None
-        it_ok = isinstance(lp.iter, ast.Attribute) and lp.iter.attr == "commands"
-        appends = [st for st in lp.body if isinstance(st, ast.Expr) and isinstance(st.value, ast.Call) and isinstance(st.value.func, ast.Attribute) and st.value.func.attr == "append"]
-        jumps = [n for n in ast.walk(lp) if isinstance(n, (ast.Continue, ast.Break))]
-        ok_loop = it_ok and len(appends) == 1 and not jumps
-        defs = A.single_defs(fn)
-        for call in A.calls_in(lp):
-            if A.call_name(call) == "get_instr_by_name" and len(call.args) == 1:
-                lookup_ok = A.norm(call.args[0]) == f"{cmdvar}.instruction.name.lower()"
-            if A.call_name(call) == "from_operands" and len(call.args) == 1:
-                fromops_ok = A.norm(call.args[0]) == f"{cmdvar}.operands"
-    ctx.check("C03.M", "_build_subroutine:one-instruction-per-command", ok_loop,
-              "the final pass does not append exactly one instruction per command, unconditionally and in order", repo.loc(m, fn))
-    ctx.check("C03.M", "_build_subroutine:lookup-by-lowercase-name", lookup_ok,
-              "the class is not looked up with flavour.get_instr_by_name(command.instruction.name.lower())", repo.loc(m, fn))
-    ctx.check("C03.M", "_build_subroutine:from-operands-of-command", fromops_ok, "from_operands is not applied to the command's own operand list", repo.loc(m, fn))
+    # executed (checker's interpreter) with a modelled flavour: one instruction per command, in order, looked up under the lower-cased
+    # instruction name, built by that class's from_operands from the command's own operands, carrying the command's line number
+    from .. import circuit as C
+    gi0 = repo.get_class(IR_MOD, "GenericInstr")
+    gm0 = ev.enum_members(gi0)
+    icmd0 = repo.get_class(IR_MOD, "ICmd")
+    asked = []
+
+    class MInstr:
+        _nqsa_model = True
+
+        def __init__(self, name, ops):
+            self.name, self.ops, self.lineno = name, ops, "unset"
+            self.mnemonic, self.operands = name, ops
+
+    class MClass:
+        _nqsa_model = True
+
+        def __init__(self, name):
+            self.name = name
+
+        def from_operands(self, ops):
+            return MInstr(self.name, list(ops))
+
+    class MFlavour:
+        _nqsa_model = True
+
+        def get_instr_by_name(self, name):
+            asked.append(name)
+            return MClass(name)
+
+    names = ["SET", "QALLOC", "SET", "ROT_X", "RET_REG"]
+    cmds = [C.Obj(icmd0, {"instruction": EnumMember(gi0.qualname, n_, gm0[n_]), "args": [], "operands": [f"op{k}a", f"op{k}b"][:k % 3], "lineno": 10 + k}) for k, n_ in enumerate(names)]
+    pre = C.Obj(None, {"commands": list(cmds), "arguments": ["t"], "netqasm_version": (0, 10), "app_id": 3})
+    ok_loop = lookup_ok = fromops_ok = False
+    why = ""
+    try:
+        sc = C.Scenario()
+        out = C.Interp(repo, ev, sc, None).call_function(m, fn, [pre, MFlavour()], {})
+        ins = out.fields.get("instructions") if isinstance(out, C.Obj) else None
+        if not isinstance(ins, list):
+            ins = out.fields.get("_instructions") if isinstance(out, C.Obj) else None
+        ok_loop = isinstance(ins, list) and len(ins) == len(cmds) and all(isinstance(x, MInstr) for x in ins) and [x.name for x in ins] == [n_.lower() for n_ in names]
+        lookup_ok = asked == [n_.lower() for n_ in names]
+        fromops_ok = ok_loop and all(x.ops == c_.fields["operands"] and x.lineno == c_.fields["lineno"] for x, c_ in zip(ins, cmds))
+        why = f"asked the flavour for {asked}; built {[(getattr(x, 'name', x), getattr(x, 'ops', None), getattr(x, 'lineno', None)) for x in (ins or [])]}"
+    except C.EvalRaise as ex_:
+        why = f"raises {ex_}"
+    except AnalysisError as ex_:
+        ctx.error("C03.M", f"_build_subroutine cannot be evaluated: {ex_}")
+        why = None
+    if why is not None:
+        ctx.check("C03.M", "_build_subroutine:one-instruction-per-command", ok_loop,
+                  f"the final pass does not produce exactly one instruction per command, in order ({why})", repo.loc(m, fn))
+        ctx.check("C03.M", "_build_subroutine:lookup-by-lowercase-name", lookup_ok, f"the class is not looked up with flavour.get_instr_by_name(command.instruction.name.lower()) ({why})", repo.loc(m, fn))
+        ctx.check("C03.M", "_build_subroutine:from-operands-of-command", fromops_ok, f"from_operands is not applied to the command's own operand list (or the line number is lost) ({why})", repo.loc(m, fn))
     # every flavour mnemonic is a GenericInstr name (lower-cased)
     gi = repo.get_class(IR_MOD, "GenericInstr")
     members = ev.enum_members(gi)
@@ -498,15 +543,6 @@ def check_lookup(ctx):
         rets = A.returns(its)
         ok = len(rets) == 1 and A.norm(rets[0].value) == f"{A.param_names(its)[0]}.name.lower()"
     ctx.check("C03.M", "ir.instruction_to_string:name-lower", ok, "instruction_to_string is not instr.name.lower()", repo.loc(irm, its) if its else "")
-    # _make_args_operands: args first, then operands; args cleared
-    mao = m.functions.get("_make_args_operands")
-    ok = False
-    if mao is not None:
-        for n in A.body_nodes(mao):
-            if isinstance(n, ast.Assign) and isinstance(n.targets[0], ast.Attribute) and n.targets[0].attr == "operands" and isinstance(n.value, ast.BinOp) and isinstance(n.value.op, ast.Add):
-                l, r = n.value.left, n.value.right
-                ok = isinstance(l, ast.Attribute) and l.attr == "args" and isinstance(r, ast.Attribute) and r.attr == "operands" and A.norm(l.value) == A.norm(r.value) == A.norm(n.targets[0].value)
-    ctx.check("C03.M", "_make_args_operands:args-then-operands", ok, "_make_args_operands does not set operands = args + operands", repo.loc(m, mao) if mao else "")
 
 
 def check_macros(ctx, rule="C03.P"):
@@ -673,6 +709,10 @@ def check_labels(ctx, rule="C03.L"):
                 start = {j: (pos[j - 1] + 1 if j else 0) for j in range(len(seq))}
                 li = order.index("lit")
                 n_sets = pos[li] - start[li]
+                lit_ops = seq[li].fields["operands"]
+                if seq[li].fields.get("args") or len(lit_ops) != 3 or not (isinstance(lit_ops[1], C.Obj) and lit_ops[1].fields.get("index") == 0 and lit_ops[1].fields["name"].name == "R"):
+                    bad.setdefault("args-then-operands", f"{label}: the command written with the bracketed argument 41 and the operands (R0, 42) ends up with args {seq[li].fields.get('args')!r} and operands {lit_ops!r}: "
+                                                         "the arguments must come first, then the operands, and the argument list must be empty")
                 if n_sets != 2 or len(out) != len(seq) + 2 or any(pos[j] != start[j] for j in range(len(seq)) if j != li):
                     bad.setdefault("literals-materialised", f"{label}: {n_sets} commands inserted before the command with the bracketed argument 41 and the literal 42 (expected 2), program length {len(out)}")
                     continue
@@ -698,6 +738,7 @@ def check_labels(ctx, rule="C03.L"):
     ctx.anchor(rule, "labelled programs assembled", n, 90)
     texts = {"completes": "assembling a labelled program fails", "labels-removed": "labels are left in the program", "source-kept": "source commands are dropped, duplicated or reordered",
              "literals-materialised": "literals and bracketed arguments are not materialised in front of their command",
+             "args-then-operands": "bracketed arguments are not folded in front of the operands",
              "branch-lands-on-what-followed-its-label": "a branch does not land on the instruction that followed its label", "duplicate-label-refused": "a duplicate label is not refused"}
     for key, text in texts.items():
         ctx.check(rule, f"assemble_subroutine:{key}", key not in bad, f"{text}: {bad.get(key)}", repo.loc(m, asm), sample={"programs": n})
